@@ -31,6 +31,7 @@ func runC08(c *Ctx) {
 	c08R3(c, m, "R3")
 	c08R4(c)
 	exprListFresh(c, "R4")
+	parameterListKeepsEveryName(c, "R4")
 	c.shared("R9", "C14/R6", "a call to a user function runs that function: the program's functions are installed into the root frame after the runtime functions, so a user function named like a builtin is the one that is called", keyHas("program-functions-after-runtime-functions", "installed-by-constructor program functions"), func(s *Ctx) { evaluatorConstruction(s, "R6") })
 	if es := c.P.LangFunc("(*Evaluator).evalStatement"); es != nil {
 		c.shared("R10", "C07/R1", "a return inside a loop ends the call with that value: every loop consumes break and continue only and passes every other outcome of its body (the return signal included) on unchanged", keyHas("loop-bod"), func(s *Ctx) { c07LoopConsumption(s, es) })
@@ -699,5 +700,53 @@ func exprListFresh(c *Ctx, rule string) {
 	})
 	if n == 0 {
 		c.undecided(rule, "expression-list-fresh", p.Pos(el.Pos()), "no successful return found")
+	}
+}
+
+// parameterListKeepsEveryName (R4): arguments bind to parameters by position, and ExprFunction.Args
+// is the positional table the call uses. In parseFunction every parameter name that was consumed is
+// appended to the list before the next one is read — nothing (a name seen before, say) decides whether
+// a position is kept.
+func parameterListKeepsEveryName(c *Ctx, rule string) {
+	p := c.P
+	pf := p.LangFunc("(*Parser).parseFunction")
+	if pf == nil {
+		c.undecided(rule, "parameter-list-keeps-every-name", "", "anchor (*Parser).parseFunction not found")
+		return
+	}
+	c.note("%s parameter-list-keeps-every-name: in parseFunction, inside the loop over the parameter list, the text of every consumed identifier is appended to the function's parameter list on every path to the next iteration (ExprFunction.Args is the positional table callFunction binds the arguments with).", rule)
+	n := 0
+	allInstrs(pf, func(in ssa.Instruction) {
+		app, ok := in.(*ssa.Call)
+		if !ok {
+			return
+		}
+		bi, ok := app.Call.Value.(*ssa.Builtin)
+		if !ok || bi.Name() != "append" || len(app.Call.Args) < 2 {
+			return
+		}
+		if sl, isSl := app.Call.Args[0].Type().Underlying().(*types.Slice); !isSl || !isBasicType(sl.Elem()) || !(strings.Contains(p.Render(app.Call.Args[1]), "GetString(") || strings.Contains(p.Render(app.Call.Args[1]), ".previous.Pos")) {
+			return
+		}
+		for _, call := range callsIn(pf) {
+			cv, isCall := call.(*ssa.Call)
+			if !isCall || !staticCalleeIs(cv, "(*lang.Parser).consume") || !cv.Block().Dominates(app.Block()) || !reachableFrom(cv.Block().Succs, nil)[cv.Block()] {
+				continue
+			}
+			if !strings.HasPrefix(p.Render(cv.Call.Args[len(cv.Call.Args)-1]), "[Ident]") {
+				continue
+			}
+			n++
+			okEdge := cv.Block()
+			for _, sc := range cv.Block().Succs {
+				if FactsOf(pf).At(sc).KnownNil(cv) {
+					okEdge = sc
+				}
+			}
+			c.check(!canSkip(okEdge, app.Block(), cv.Block()), rule, "parameter-list-keeps-every-name", p.InstrPos(app), "every parameter name read is appended before the next one is read", "after a parameter name was read the next one can be reached without the append: a parameter (a name listed twice, say) takes no position, every later parameter moves one slot to the left and receives the wrong argument")
+		}
+	})
+	if n == 0 {
+		c.undecided(rule, "parameter-list-keeps-every-name", p.Pos(pf.Pos()), "no append of a consumed identifier's text inside a loop found in parseFunction")
 	}
 }
